@@ -22,6 +22,8 @@ RULE = (
 )
 ASSUMPTIONS = ["bonding limit 2.5 A (strict <) on the coordinates as written in the file"]
 LIMIT = 2.5
+_t = topo.RES["CYS"]["atoms"]
+CYS_CHI1 = float(geom.dihedral(_t["N"], _t["CA"], _t["CB"], _t["SG"]))
 
 
 @st.composite
@@ -41,6 +43,7 @@ def case(draw):
         ch["seq"] = names
         ch["ter"] = True
         ch["cys"] = pos
+        ch.pop("extra", None)  # (runs with undefined atoms and nothing to repair fail: not this property)
         if ci > 0:
             if ci == 1:
                 d = draw(st.one_of(strat.fl(2.3, 2.7), strat.fl(2.3, 2.7), strat.fl(0.8, 4.0), strat.fl(1.9, 2.2),
@@ -51,8 +54,19 @@ def case(draw):
             ch["ss_to"] = dict(chain=tgt, res=chains[tgt]["cys"], own=pos, d=d, tilt=draw(strat.unit_dir()),
                                tiltw=0.3 if ci == 1 else 3.0)
         chains.append(ch)
-    return dict(part="ss", desc=dict(chains=chains), ff=draw(st.sampled_from(strat.FFS)),
-                opts=draw(st.sampled_from([[], [], ["--noopt"], ["--nodebump"]])))  # fmt: skip
+    opts = draw(st.sampled_from([[], [], ["--noopt"], ["--nodebump"]]))
+    drop_sg = False
+    if hyd == "none" and draw(st.integers(0, 3)) == 0:
+        # the second chain's cysteine comes WITHOUT its SG: the sulfur is rebuilt (at the template's chi1)
+        # and the bridge rule applies to the rebuilt position; without debumping nothing moves it later
+        drop_sg = True
+        opts = ["--nodebump"] + [o for o in opts if o == "--noopt"]
+        c1 = chains[1]
+        c1["chi"] = [list(x) for x in c1["chi"]]
+        c1["chi"][c1["cys"]][0] = CYS_CHI1
+        c1.pop("shuffle", None)
+        c1.pop("extra", None)
+    return dict(part="ss", desc=dict(chains=chains), ff=draw(st.sampled_from(strat.FFS)), opts=opts, drop_sg=drop_sg)
 
 
 def _classify(A, desc):
@@ -85,10 +99,30 @@ def check(case):
     desc, ff, opts = case["desc"], case["ff"], case["opts"]
     e2e.normalise(desc, opts)
     s = build.materialise(desc)
+    dropped_key = None
+    if case.get("drop_sg"):
+        c1 = desc["chains"][1]
+        idx = next(k for k, rec in enumerate(s.records) if rec["name"] == "SG" and rec["group"] == ("chain", 1, c1["cys"]))
+        del s.records[idx]
+        s.ters = {t - 1 if t > idx else t for t in s.ters}
+        dropped_key = (1, c1["cys"])
+        res.label("SG-missing-in-input")
+        # the rebuilt sulfur's position is pdb2pqr's own: read it from a first run
+        r0 = pipeline.run(s.text(), [f"--ff={ff}", *opts])
+        if not r0.ok:
+            res.label("run-failed")
+            return res
+        A0 = e2e.analyse(desc, ff, opts, s, r0)
+        e0 = A0.by_group.get(("chain",) + dropped_key)
+        if e0 is None or "SG" not in e0["atoms"]:
+            res.bad("C13:rebuilt-SG-missing", f"CYS {dropped_key}: SG absent from the input was not rebuilt")
+            return res
     sg = {}
     for rec in s.records:
         if rec["name"] == "SG":
             sg[(rec["group"][1], rec["group"][2])] = rec["xyz"]
+    if dropped_key is not None:
+        sg[dropped_key] = np.array(e0["atoms"]["SG"].coords)
     keys = sorted(sg)
     partners = {k: [] for k in keys}
     borderline = False
